@@ -24,3 +24,32 @@ void heap_early_op(hv::out &o);                                      // op `earl
 void heap_reset_op(const std::vector<std::string> &w, hv::out &o);   // `reset heap ...` / `reset crit ...`
 void heap_op(const std::vector<std::string> &w, hv::out &o);         // every op of a heap case
 }
+
+// the static_object_pool half (C10_sop.cpp)
+#include <set>
+#include <functional>
+extern std::set<const void *> sop_objs; // ledger: objects alive
+extern std::string sop_err;
+extern long sop_ctor_runs, sop_dtor_runs;
+extern const void *sop_last_ctor, *sop_last_dtor;
+struct SopBase
+{
+    virtual ~SopBase() {}
+    virtual void *create() = 0;
+    virtual int create_throw() = 0; // create(args) whose constructor throws: 0 = nullptr came back, 1 = the exception propagated, 2 = an object came back
+    virtual void destroy(void *) = 0;
+    virtual size_t avail() = 0;
+    virtual char *base() = 0;
+    virtual size_t storage() = 0;
+    virtual size_t cap() = 0;
+    virtual size_t szT() = 0;
+    virtual size_t alT() = 0;
+    virtual bool intact(void *) = 0;
+    virtual void engage(void *zone, size_t ncells) = 0; // through freelist()
+};
+struct SopKind
+{
+    size_t sz, al, cap;
+    std::function<SopBase *()> mk;
+};
+extern const std::vector<SopKind> sop_kinds;
